@@ -287,6 +287,22 @@ def structured_program(rng, size=30, aligned=True, faults=False):
                 inner = body(rng.randint(1, 3), depth + 1)
                 out.append({"m": rng.choice(BRM), "rs1": rng.choice(work), "rs2": rng.choice(work), "imm": 4 * (len(inner) + 1)})
                 out += inner
+            elif r < 0.82:
+                # print-string ecall right behind stores into (or conflicting with) the string's block: the ecall's
+                # uncounted byte reads and the older stores' counted accesses must keep their program order
+                off = rng.randrange(0, 64, 4)
+                rx = rng.choice(work)
+                out.append({"m": "addi", "rd": 17, "rs1": 0, "imm": 4})
+                out.append({"m": "addi", "rd": 10, "rs1": 31, "imm": off + rng.choice([0, 0, 1, 2])})
+                st = lambda: {"m": rng.choice(["sb", "sh", "sw"]), "rs1": 31, "rs2": rx, "imm": rng.choice([off, off, off + 4, off + 64, off + 128, off + 256])}
+                shape = rng.random()
+                if shape < 0.4:
+                    out += [{"m": "addi", "rd": rx, "rs1": rx, "imm": rng.choice([1, 65, 0x141])}, st()]
+                elif shape < 0.7:
+                    out += [st(), st()]
+                else:
+                    out += [st(), _alu(rng, work)][: rng.randint(1, 2)]
+                out.append({"m": "ecall"})
             elif r < 0.87:
                 code = rng.choice([1, 11, 34, 35, 36, 2])
                 out.append({"m": "addi", "rd": 17, "rs1": 0, "imm": code})
